@@ -305,6 +305,10 @@ int main(int argc, char* const* argv)
             }
             instance.txin_index = selected;
         }
+        // ... and under the digest rules of that input: an input without witness is a pre-segwit one, whatever the other
+        // inputs of the transaction are
+        const size_t ix = instance.txin_index > -1 ? (size_t)instance.txin_index : 0;
+        if (instance.sigver == SigVersion::WITNESS_V0 && instance.tx->vin[ix].scriptWitness.IsNull()) instance.sigver = SigVersion::BASE;
     }
 
     if (!instance.setup_environment(flags)) {
